@@ -1006,7 +1006,7 @@ fn main() {
     let prop = Property {
         id: "C04",
         level: "exploration",
-        rule: "hostile packet sequences in crash-isolated children: (tiny) every byte string of length <= 3; (short) enumerated first-word combinations at lengths 4..40; (subst) every single-byte substitution over the header region of corpus packets (8 representative values quick / all 255 thorough); (field_fti) per-scheme EXT_FTI extremes on object packets, FDT first and object first; (field_fti_any) EXT_FTI extremes of every scheme id incl. FEC 2 with its m/G word, codepoint and payload id rewritten to match, on the FDT packets or on the object packets; (field_misc) payload-id, payload-size, codepoint, flag, HDR_LEN, HEL, EXT_FDT, EXT_TIME, EXT_CENC, FDT-FTI, TOI-class edits through the independent encoder; (fdt_oti) FEC OTI delivered by the FDT only - extremes of every FEC-OTI attribute and of the base64 scheme-specific info for every scheme id, at instance or File level - followed by object packets of that codepoint without EXT_FTI; (fdt_id_reuse) an FDT instance that is complete but fails to decode, cleanup() calls, then a valid session on the same TSI reusing that instance id; (fdtxml) FDT XML attribute rewriting / truncation / duplication / nesting / entities / noise wrapped into FDT packets; (sequence) seeded flip/truncate/extend/splice/repeat/drop/swap sequences over whole sessions. Each sequence is followed by two probe sessions. Oracle: every push returns, no panic, no step-budget trip, per-call heap growth <= 48 MiB with a 1 MiB cache, no single request > 256 MiB, probes delivered. A case is one shard of one class; distinct = shards that executed pushes; monitor states = distinct error-message kinds reached; field_misc also substitutes the codepoint of every scheme id on copies of object and FDT packets cut 0..12 bytes after the LCT header",
+        rule: "hostile packet sequences in crash-isolated children: (tiny) every byte string of length <= 3; (short) enumerated first-word combinations at lengths 4..40; (subst) every single-byte substitution over the header region of corpus packets (8 representative values quick / all 255 thorough); (field_fti) per-scheme EXT_FTI extremes on object packets, FDT first and object first; (field_fti_any) EXT_FTI extremes of every scheme id incl. FEC 2 with its m/G word, codepoint and payload id rewritten to match, on the FDT packets or on the object packets; (field_misc) payload-id, payload-size, codepoint, flag, HDR_LEN, HEL, EXT_FDT, EXT_TIME, EXT_CENC, FDT-FTI, TOI-class edits through the independent encoder; (fdt_oti) FEC OTI delivered by the FDT only - extremes of every FEC-OTI attribute and of the base64 scheme-specific info for every scheme id, at instance or File level - followed by object packets of that codepoint without EXT_FTI; (fdt_id_reuse) an FDT instance that is complete but fails to decode, cleanup() calls, then a valid session on the same TSI reusing that instance id; (fdtxml) FDT XML attribute rewriting / truncation / duplication / nesting / entities / noise wrapped into FDT packets; (sequence) seeded flip/truncate/extend/splice/repeat/drop/swap sequences over whole sessions. Each sequence is followed by two probe sessions. Oracle: every push returns, no panic, no step-budget trip, per-call heap growth <= 48 MiB with a 1 MiB cache, no single request > 256 MiB, probes delivered. A case is one shard of one class; distinct = shards that executed pushes; monitor states = distinct error-message kinds reached; field_misc also substitutes the codepoint of every scheme id on copies of object and FDT packets cut 0..12 bytes after the LCT header; (toi_reuse_after_error) one hostile datagram that makes an object fail, then the complete valid session for the same TSI and TOI, which must be delivered",
         assumptions: vec![
             "probe sessions use a TOI, FDT instance id and TSI that the hostile sequence did not use".into(),
             "allocation numbers come from the harness's counting allocator in a single-threaded child; the monitoring writer keeps at most 4 KiB per writer".into(),
